@@ -121,7 +121,17 @@ def gen_cases(rng, tier: str) -> list[dict]:
             d = call(lambda: e._synthetic_partial(sorted(e._variable_names)[0]))
             if d[0] == "ok" and wire.size(d[1]) <= 400:
                 cases.append({"origin": "derivative", "e": wire.expr(d[1])})
+            if rng.random() < 0.5:
+                # an expression object handed out by an earlier simplification, reused inside a new one
+                cases.append({"origin": "reuse", "e": wire.expr(e), "reuse": rng.randrange(len(REUSE_SHAPES))})
     return cases
+
+
+REUSE_SHAPES = [
+    lambda r, x: X.Divide(r, x), lambda r, x: X.Multiply(X.Negation(r), x), lambda r, x: X.Reciprocal(r),
+    lambda r, x: X.Minus(r, r), lambda r, x: X.Add(r, X.Multiply(x, r)), lambda r, x: X.Power(r, X.Constant(2.0)),
+    lambda r, x: X.Logarithm(X.Exponential(r)), lambda r, x: X.NthPower(X.Divide(x, r), 2),
+]
 
 
 def rule_free(e) -> str | None:
@@ -145,6 +155,19 @@ def check_cases(cases: list[dict], rep: Report, known: dict) -> None:
     worst = (0.0, None)
     for c in cases:
         e = wire.build_raw(c["e"])
+        model_text = c["e"]
+        if c.get("reuse") is not None:
+            vs = sorted(e._variable_names) or ["x"]
+            with common.WarnCatcher() as wc0:
+                got = call(lambda: sm.Partial(e, vs[0]).as_expression(), timeout=30)
+            if got[0] != "ok" or wc0.count:
+                rep.skip("reuse-base-not-simplified")
+                continue
+            e = REUSE_SHAPES[c["reuse"]](got[1], X.Variable(vs[0]))
+            if wire.size(e) > 600:
+                rep.skip("reuse-too-large")
+                continue
+            model_text = wire.expr(e, flags=True)      # the model starts from the flags the objects carry
         n = wire.size(e)
         seen = {wire.expr(e)}
         evs = []
@@ -213,9 +236,11 @@ def check_cases(cases: list[dict], rep: Report, known: dict) -> None:
                     rep.violation(f"the final form is not rule-free: on a fresh copy of it {log2.events[0]} still applies "
                                   f"({wire.size(cur)} nodes: {repr(cur)[:200]})", info)
                 rep.count("final-form-recheck", "rule-free" if not log2.events else "not-rule-free")
-        if steps <= 1000:
-            it = tb.ask(f"F0 trace 1000 {c['e']}")
-            work.append((c, info, evs, it))
+        # (a reused object occurring twice shares its flags between the occurrences; the tree model
+        #  does not — those shapes are judged on the implementation alone)
+        if steps <= 1000 and c.get("reuse") not in (3, 4):
+            it = tb.ask(f"F0 trace 1000 {model_text}")
+            work.append((dict(c, e=model_text), info, evs, it))
         for ev in evs:
             rep.count("rules-fired(impl)", ev.split(":")[0])
     # small inputs through the public API: no warning
